@@ -87,7 +87,9 @@ def bitwise_equal(a, b):
 def even_promotion(cfg, rng, bad):
     n = 0
     m = int(rng.integers(7, 45))
-    ce, co = dict(cfg, nphi=2 * m), dict(cfg, nphi=2 * m + 1)
+    # the request may arrive as any integer type (a plain int, or a numpy integer e.g. out of np.arange)
+    typ = [int, np.int64, np.int32, int][int(rng.integers(0, 4))]
+    ce, co = dict(cfg, nphi=typ(2 * m)), dict(cfg, nphi=2 * m + 1)
     qo, _ = build(co, shear=True)
     n += 1
     try:
